@@ -103,6 +103,7 @@ def gen_case(r, tier):
     ia_mode = r.chance(3, 10)
     stale_ok = r.chance(1, 25)          # deliberately leave the domain (stale handles): correspondence only
     dup_ok = r.chance(1, 10)            # duplicate creation: outside the quantifier, correspondence only
+    neg_growth = r.chance(1, 30)
     p_invalid = r.choice([5, 15, 15, 25])
     ops = []
     exists = [False] * na
@@ -164,6 +165,8 @@ def gen_case(r, tier):
         if x < 25:
             kind = "grow"
             o = {"k": kind, "c": gen_coins(r, ds, huge)}
+            if neg_growth and o["c"] and r.chance(1, 6):
+                o["c"][r.below(len(o["c"]))][1] = -gen_amount(r, False)   # outside the quantifier: correspondence only
         elif x < 42:
             kind = "newia" if (ia_mode and r.chance(1, 2)) else "new"
             if invalid and lv and dup_ok:
@@ -726,7 +729,68 @@ def selftest(good, out):
     return pert
 
 
-def run_cases(cases, model_ok, out, tag, per_file=12):
+def minimise(c, kind, binary, rounds=80):
+    """greedy one-call-at-a-time reduction of a violating history, keeping a violation of the same kind"""
+    cur = c
+    for _ in range(rounds):
+        cands = []
+        for i in range(len(cur["ops"])):
+            d = dict(cur)
+            d["ops"] = cur["ops"][:i] + cur["ops"][i + 1:]
+            cands.append(d)
+        if not cands:
+            break
+        obs = common.run_driver(binary, [wire(x) for x in cands], shards=4)
+        nxt = None
+        for x, o in zip(cands, obs):
+            if o.get("err"):
+                continue
+            if any(v["rec"].get("kind") == kind or v["rec"].get("seen_as") == kind for v in oracle(x, o["flat"])):
+                nxt = x
+                break
+        if nxt is None:
+            break
+        cur = nxt
+    return cur
+
+
+def exhaustive_cases(maxlen):
+    """every sequence of up to maxlen calls over one accumulator, two names, one denomination, three amount
+    classes (1 ulp, 1/2, 1), each followed by the claim sweep"""
+    amts = [1, P18 // 2, P18]
+    alpha = []
+    for a in amts:
+        alpha.append({"k": "grow", "c": [[0, a]]})
+    for n in (0, 1):
+        for a in [0] + amts[1:]:
+            alpha.append({"k": "new", "n": n, "s": a})
+        for a in amts[1:] + [0]:
+            alpha.append({"k": "add", "n": n, "s": a})
+        for a in amts[1:]:
+            alpha.append({"k": "rem", "n": n, "s": a})
+        alpha.append({"k": "upd", "n": n, "s": -(P18 // 2)})
+        alpha.append({"k": "claim", "n": n})
+        alpha.append({"k": "del", "n": n})
+    out = []
+
+    def rec(prefix):
+        if prefix:
+            ops = [{"k": "make", "a": 0, "bad": False}]
+            for j, o in enumerate(prefix):
+                o = dict(o)
+                o.update({"a": 0, "h": j % 2, "f": j % 3 != 2})
+                ops.append(o)
+            for n in (0, 1):
+                ops.append({"k": "claim", "a": 0, "h": 0, "f": True, "n": n})
+            out.append({"nn": 2, "na": 1, "ops": ops})
+        if len(prefix) < maxlen:
+            for o in alpha:
+                rec(prefix + [o])
+    rec([])
+    return out
+
+
+def run_cases(cases, model_ok, out, tag, per_file=12, model_every=1):
     binary = common.go_build("c15drv")
     obs = common.run_driver(binary, [wire(c) for c in cases], shards=8)
     good = []
@@ -736,10 +800,21 @@ def run_cases(cases, model_ok, out, tag, per_file=12):
             out.oracle_violations.append({"what": o["err"], "rec": {"kind": "driver_panic"}, "case": c})
             continue
         flat = o["flat"]
-        if not c.get("tricky"):     # the model keeps accumulators apart by construction (see known finding C15-F1)
+        if not c.get("tricky") and out.evaluations % model_every == 0:
+            # (tricky: the model keeps accumulators apart by construction, see known finding C15-F1)
             good.append((c, flat))
         for v in oracle(c, flat):
             v["case"] = c
+            if len(out.oracle_violations) < 3 and not c.get("tricky"):
+                try:
+                    small = minimise(c, v["rec"]["kind"], binary)
+                    if len(small["ops"]) < len(c["ops"]):
+                        o2 = common.run_driver(binary, [wire(small)])[0]
+                        v2 = [x for x in oracle(small, o2["flat"]) if x["rec"].get("kind") == v["rec"]["kind"]]
+                        if v2:
+                            v = dict(v2[0], case=small, original_case=c)
+                except Exception as ex:   # minimisation is a convenience only
+                    out.notes.append("minimisation failed: %r" % (ex,))
             out.oracle_violations.append(v)
         try:
             steps, _ = parse(c, flat)
@@ -791,6 +866,15 @@ def correspond(tier, seed, model_ok):
     cases = [gen_case(r.fork(i), tier) for i in range(n)]
     corpus = common.load_corpus(PROP)
     run_cases(corpus + cases, model_ok, out, "q")
+    nex = 0
+    if tier != "quick":
+        ex3 = exhaustive_cases(3)
+        run_cases(ex3, model_ok, out, "x3", per_file=60)
+        ex4 = [c for c in exhaustive_cases(4) if len(c["ops"]) == 1 + 4 + 2]
+        run_cases(ex4, model_ok, out, "x4", per_file=60, model_every=10)
+        nex = len(ex3) + len(ex4)
+        out.notes.append("exhaustive: all %d call sequences of length <= 3 (model compared on all) and all %d of length 4 (model compared on every 10th) "
+                         "over 1 accumulator, 2 names, 1 denomination, amounts {1 ulp, 1/2, 1}" % (len(ex3), len(ex4)))
     out.rule = ("cases = histories of 5-60 calls (+ a final claim sweep) over 1-4 accumulators, 1-6 names, 1-3 denominations, two AccumulatorObject "
                 "handles per accumulator (fresh or reused), amounts from {0, 1 ulp, integers, 18-decimal fractions, 10^30, rarely 10^70}; "
                 "non-trivial = some claim/delete paid a non-zero amount after at least one successful share change; distinct = distinct case JSON")
@@ -801,7 +885,7 @@ def correspond(tier, seed, model_ok):
             kinds[o["k"]] = kinds.get(o["k"], 0) + 1
     out.distribution = {"op_kinds": kinds, "ops_total": sum(len(c["ops"]) for c in cases),
                         "accumulators_hist": {str(k): sum(1 for c in cases if c["na"] == k) for k in range(1, 5)},
-                        "corpus_cases": len(corpus)}
+                        "corpus_cases": len(corpus), "exhaustive_cases": nex}
     return out
 
 
